@@ -379,29 +379,33 @@ func minimise(f *format, recs []rec, lay []int) ([]rec, []int, []string) {
 		}
 	}
 	zeroDims()
-	// which record corners matter: a record that can be swapped for the plain pool entry
-	// without curing the failure contributes no tag.
+	// which record corners matter: a record that can be swapped for another (healthy) pool
+	// entry without curing the failure contributes no tag.
 	var tags []string
-	plain := f.pool[0]
+	sf := soloFails[f.id]
 	for i := range recs {
-		if recs[i] == plain {
-			continue
-		}
-		clash := false
-		for j := range recs {
-			if j != i && recs[j].Name == plain.Name {
-				clash = true
+		swapped := false
+		for c, cand := range f.pool {
+			if sf != nil && sf[c] {
+				continue
 			}
-		}
-		if !clash {
-			old := recs[i]
-			recs[i] = plain
-			if fails(recs, lay) {
-				continue // stays plain: the corner is irrelevant
+			clash := false
+			for j := range recs {
+				if recs[j] == cand || (j != i && recs[j].Name == cand.Name) {
+					clash = true
+				}
 			}
-			recs[i] = old
+			if clash {
+				continue
+			}
+			trial := append([]rec{}, recs...)
+			trial[i] = cand
+			swapped = fails(trial, lay)
+			break
 		}
-		tags = append(tags, recs[i].Tag)
+		if !swapped {
+			tags = append(tags, recs[i].Tag)
+		}
 	}
 	sort.Strings(tags)
 	return recs, lay, tags
@@ -463,8 +467,43 @@ func pairs(rs []rec) [][2]string {
 	return out
 }
 
+// soloFails[format id][pool index]: the file holding just that record under the all-default
+// layout already fails. Computed once before the exploration; lets report() attribute the
+// (many) failing cases that contain such a record without re-running a minimisation each time.
+var soloFails = map[string][]bool{}
+
+func computeSoloFails(formats []*format) {
+	for _, f := range formats {
+		v := make([]bool, len(f.pool))
+		for i, rc := range f.pool {
+			s, _, _ := f.check([]rec{rc}, make([]int, len(f.dims)))
+			v[i] = s != ""
+		}
+		soloFails[f.id] = v
+	}
+}
+
+func soloCause(f *format, recs []rec) ([]rec, []int, []string, bool) {
+	sf := soloFails[f.id]
+	for _, rc := range recs {
+		for i, p := range f.pool {
+			if p == rc && sf[i] {
+				var tags []string
+				if !sf[0] { // the plain record passes, so this record's corner is what matters
+					tags = []string{rc.Tag}
+				}
+				return []rec{rc}, make([]int, len(f.dims)), tags, true
+			}
+		}
+	}
+	return nil, nil, nil, false
+}
+
 func report(r *ev.Run, f *format, recs []rec, lay []int) {
-	mr, ml, tags := minimise(f, recs, lay)
+	mr, ml, tags, ok := soloCause(f, recs)
+	if !ok {
+		mr, ml, tags = minimise(f, recs, lay)
+	}
 	symptom, what, g := f.check(mr, ml)
 	if symptom == "" { // cannot happen (minimise keeps the failure); fall back to the original case
 		mr, ml = recs, lay
@@ -661,6 +700,7 @@ func main() {
 		g := f.gen(recs, lay)
 		r.Sample(map[string]any{"format": f.id, "path": f.path, "file": g.file, "expected": pairs(g.truth), "layout": layoutFull(f, lay)})
 	}
+	computeSoloFails(formats)
 	done := r.ParallelFor(len(tasks), func(i int) { runTask(r, tasks[i]) })
 	r.Set("max_records", maxN)
 	r.Set("formats", len(formats))
